@@ -212,13 +212,17 @@ def check(lines, expected_edges=None, mode=None):
             if a.first_start is None:
                 a.first_start = (seq, clock)
                 a.start_rec = line
-                check_start_conditions(a, seq, clock, snap, int(f[5]) if t == "s" else None, "starts")
-                if t == "s" and int(f[4]) != 0:
-                    res.vio("C13:start-with-unsolved-dependencies:%s" % a.kind,
-                            "%s starts at %.17g while get_dependencies() still has %s element(s)" % (a.id, clock, f[4]))
+                check_start_conditions(a, seq, clock, snap, None, "starts")
             elif a.live:
                 # a later start record (e.g. the second on_start of a Comm): the same conditions apply
                 check_start_conditions(a, seq, clock, snap, None, "starts again")
+            if t == "s" and a.first_done is None:
+                # what the activity itself reports in its on_this_start callback
+                if int(f[4]) != 0:
+                    res.vio("C13:start-with-unsolved-dependencies:%s" % a.kind,
+                            "%s starts at %.17g while get_dependencies() still has %s element(s)" % (a.id, clock, f[4]))
+                if int(f[5]) == 0:
+                    res.vio("C13:start-while-is_assigned-false:%s" % a.kind, "%s starts at %.17g with is_assigned()==false" % (a.id, clock))
         elif t in ("c", "C"):
             clock, a, state = float(f[1]), acts.get(f[2]), f[3]
             if a is None:
